@@ -38,7 +38,10 @@ var Quit bool
 
 func ParseInputLine(inputLine string) {
 	if inputLine == uIsReady {
-		search = NewSearch()
+		// never replace the object a running search (and a later 'stop') works with
+		if search == nil {
+			search = NewSearch()
+		}
 		fmt.Println("readyok")
 	} else if inputLine == "eval" {
 		fmt.Println(Evaluate(posGen.getTopPos(), 0, true))
@@ -51,8 +54,12 @@ func ParseInputLine(inputLine string) {
 	} else if strings.HasPrefix(inputLine, uGo) {
 		doGo(strings.TrimSpace(strings.TrimPrefix(inputLine, uGo)))
 	} else if inputLine == "stop" {
-		if search != nil && !search.interrupted {
-			search.stop <- true
+		if search != nil && search.running.Load() {
+			select {
+			case search.stop <- true:
+			default:
+				// a stop request is already pending
+			}
 		}
 	} else if strings.HasPrefix(inputLine, uOptionSet) {
 		setOption(strings.TrimSpace(strings.TrimPrefix(inputLine, uOptionSet)))
@@ -243,6 +250,12 @@ out:
 		endtime = calcEndtime(startTime, blackMillisLeft, blackMillisIncrement, whiteMillisLeft, whiteMillisIncrement,
 			fullMovesToGo)
 	}
+	// forget a stop request that came too late for the previous search
+	select {
+	case <-search.stop:
+	default:
+	}
+	search.running.Store(true)
 	go search.StartIterativeDeepening(startTime, endtime, targetDepth)
 }
 
